@@ -859,6 +859,26 @@ fn programs(which: Which, tier: Tier) -> Vec<String> {
             }
         }
     }
+    if tier == Tier::Thorough {
+        // bodies of three instructions
+        for a in &gb {
+            for b in &gb {
+                for c in &gb {
+                    for inv in ["X 3", "X(0.5) 3"] {
+                        let head = if inv.contains('(') { "DEFCAL X(%t) q" } else { "DEFCAL X q" };
+                        progs.push(format!("{head}:\n    {a}\n    {b}\n    {c}\nDEFCAL Y q:\n    DECLARE t2 BIT\n    Z q\n    Z q\nH 2\n{inv}\nH 4\n"));
+                    }
+                }
+            }
+        }
+        for a in MEAS_BODIES {
+            for b in MEAS_BODIES {
+                for c in MEAS_BODIES {
+                    progs.push(format!("DEFCAL MEASURE q dest:\n    {a}\n    {b}\n    {c}\nDEFCAL Y q:\n    Z q\nH 2\nMEASURE 3 ro[1]\nH 4\n"));
+                }
+            }
+        }
+    }
     for a in MEAS_BODIES {
         for b in MEAS_BODIES.iter().chain(std::iter::once(&"")) {
             let body = if b.is_empty() { format!("    {a}\n") } else { format!("    {a}\n    {b}\n") };
